@@ -189,6 +189,26 @@ Proof.
 Qed.
 Print Assumptions C03_numpy_2d_rows_only.
 
+(* bare arrays mixed with timeseries (outside the property's "separately" clause, modelled for faithfulness): the joint
+   index is the pandas one; df_sync / df_reindex raise ValueError (None) exactly when some array has more than one row
+   and a length other than the index length; otherwise every array comes back unchanged *)
+Theorem C03_arrays_mixed_with_series tr h m ch P :
+  ((forall o, tr <> Leaf o) -> df_index (flatten tr) h = TgIdx P ->
+     (df_sync_checked tr h m ch = None <->
+        exists o n, In o (flatten tr) /\ arr_rows o = Some n /\ n <> length P /\ (1 < n)%nat) /\
+     (forall r, df_sync_checked tr h m ch = Some r -> r = df_sync tr h m ch)) /\
+  (reindex_target tr h = TgIdx P ->
+     (df_reindex_checked tr h m = None <->
+        exists o n, In o (flatten tr) /\ arr_rows o = Some n /\ n <> length P /\ (1 < n)%nat) /\
+     (forall r, df_reindex_checked tr h m = Some r -> r = df_reindex tr h m)) /\
+  (forall o n, arr_rows o = Some n -> reindex_obj (TgIdx P) m o = o).
+Proof.
+  split; [intros Hn HP; exact (df_sync_checked_spec tr h m ch P Hn HP)|].
+  split; [intros HP; exact (df_reindex_checked_spec tr h m P HP)|].
+  intros o n. apply reindex_obj_array_unchanged.
+Qed.
+Print Assumptions C03_arrays_mixed_with_series.
+
 Theorem C03_numpy_length_by_policy h ls n : np_len h ls = Some n ->
   match h with
   | HI => (forall l, In l ls -> (n <= l)%nat) /\ In n ls
